@@ -71,6 +71,15 @@ func main() {
 	}
 }
 
+var nativeRe = regexp.MustCompile(`^//verif:native\s+(\S+)`)
+
+type nativeTest struct {
+	name string
+	file *harnessFile
+}
+
+var nativeTests []nativeTest
+
 var entryRe = regexp.MustCompile(`^//verif:(entry|quick|thorough|only)\s+(\S+)\s*(.*)$`)
 
 func parseHarnessDir(dir string) ([]*harnessFile, []*entrySpec, error) {
@@ -97,6 +106,9 @@ func parseHarnessDir(dir string) ([]*harnessFile, []*entrySpec, error) {
 			line := strings.TrimSpace(sc.Text())
 			if strings.HasPrefix(line, "//verif:pkg ") {
 				hf.pkgDir = strings.TrimSpace(strings.TrimPrefix(line, "//verif:pkg "))
+			}
+			if m := nativeRe.FindStringSubmatch(line); m != nil {
+				nativeTests = append(nativeTests, nativeTest{name: m[1], file: hf})
 			}
 			if m := entryRe.FindStringSubmatch(line); m != nil {
 				es := byName[m[2]]
@@ -364,6 +376,25 @@ func cmdCheck(args []string) int {
 
 	var outs []entryOut
 	exit := 0
+	// native validation of harness models (e.g. a Go model of a reflection-based library call is compared
+	// with the real library over an exhaustive small domain) - on every run, before anything is claimed
+	var modelFailures []string
+	nativeRuns := 0
+	if *only == "" {
+		for _, nt := range nativeTests {
+			ovj, _ := ov.writeJSON()
+			cmd := exec.Command("go", "test", "-tags", "verif", "-vet=off", "-count=1", "-overlay", ovj, "-run", "^"+nt.name+"$", "-v", "./"+nt.file.pkgDir)
+			cmd.Dir = repoRoot
+			cmd.Env = append(os.Environ(), "GOFLAGS=-mod=mod", "GOPROXY=off", "GOSUMDB=off", "GOTOOLCHAIN=local")
+			out, err := cmd.CombinedOutput()
+			nativeRuns++
+			if err != nil || !strings.Contains(string(out), "--- PASS: "+nt.name) {
+				modelFailures = append(modelFailures, fmt.Sprintf("native model validation %s failed: %s", nt.name, lastLines(string(out), 12)))
+			} else if *verbose {
+				fmt.Fprintf(os.Stderr, "native validation %s: PASS\n", nt.name)
+			}
+		}
+	}
 	var knownLines, violationLines []string
 	totalViol := 0
 	replays := 0
@@ -477,7 +508,7 @@ func cmdCheck(args []string) int {
 		}
 	}
 	// evidence
-	ev := buildEvidence(*prop, *tier, seed, pc, outs, loadT, time.Since(t0), totalViol, replays, knownLines)
+	ev := buildEvidence(*prop, *tier, seed, pc, outs, loadT, time.Since(t0), totalViol, replays+nativeRuns, knownLines)
 	if *evid != "" {
 		os.MkdirAll(filepath.Dir(*evid), 0o755)
 		b, _ := json.MarshalIndent(ev, "", " ")
@@ -497,6 +528,10 @@ func cmdCheck(args []string) int {
 		return 1
 	}
 	inconc := false
+	for _, m := range modelFailures {
+		fmt.Printf("INCONCLUSIVE property=%s %s\n", *prop, m)
+		inconc = true
+	}
 	for _, o := range outs {
 		for _, m := range o.res.Inconclusive {
 			fmt.Printf("INCONCLUSIVE property=%s entry=%s %s\n", *prop, o.es.name, m)
